@@ -4,6 +4,7 @@ CONSTANTS
   Bufs2 = {40000}
   Modes = {0}
   Long = FALSE
+  BSizes = {}
   Track = FALSE
 INIT Init
 NEXT Next
